@@ -225,39 +225,50 @@ def keypair (seed : Bytes) : KeyPair :=
   let sk := rho ++ key ++ tr ++ s1.flatMap polyEtaPack ++ s2.flatMap polyEtaPack ++ t0.flatMap polyT0Pack
   ⟨pk, sk⟩
 
-/-- hint section of `packSig`: 75 position bytes then 8 cumulative counts, by sequential writes. -/
+/-- positions of the non-zero coefficients of a hint row, ascending -/
+def rowPositions (row : Poly) : List Nat := (List.range N).filter (fun j => row.getD j 0#32 != 0#32)
+
+/-- running totals of the row weights -/
+def cumCounts : Nat → List (List Nat) → List Nat
+  | _, [] => []
+  | k, r :: rest => (k + r.length) :: cumCounts (k + r.length) rest
+
+/-- hint section of `packSig` (for total weight ≤ ω): the positions of all rows in order, zero padding up to
+ω = 75 bytes, then the 8 cumulative counts. The Go code produces this by sequential writes `sig[k] = j; k++` and
+`sig[OMEGA+i] = k` into a zeroed buffer. -/
 def packHints (h : List Poly) : Bytes :=
-  let r := h.zipIdx.foldl (fun (st : Bytes × Nat) (row, i) =>
-      (List.range N).foldl (fun (st : Bytes × Nat) j =>
-        let (buf, k) := st
-        let (buf, k) := if row.getD j 0 ≠ 0#32 then (buf.set k (UInt8.ofNat j), k+1) else (buf, k)
-        (buf.set (OMEGA + i) (UInt8.ofNat k), k)) st) (zeros (OMEGA + K), 0)
-  r.1
+  let pos := h.map rowPositions
+  pos.flatten.map UInt8.ofNat ++ zeros (OMEGA - pos.flatten.length) ++ (cumCounts 0 pos).map UInt8.ofNat
 
 def packSig (c : Bytes) (z h : List Poly) : Bytes := c ++ z.flatMap polyZPack ++ packHints h
 
+/-- one row of `unpackSig`: positions `hs[k .. cnt)` must be strictly increasing; sets those coefficients to 1.
+`j` runs from `k`; `n = cnt - j` steps remain. -/
+def decodeRow (hs : Bytes) (k : Nat) : Nat → Nat → Poly → Option Poly
+  | 0, _, p => some p
+  | n+1, j, p =>
+    if j > k ∧ (hs.getD j 0).toNat ≤ (hs.getD (j-1) 0).toNat then none
+    else decodeRow hs k n (j+1) (p.set (hs.getD j 0).toNat 1#32)
+
+/-- the row loop of `unpackSig`: `rows` rows remain, the next is row `i`, `k` positions consumed so far -/
+def unpackRows (hs : Bytes) : Nat → Nat → Nat → Option (List Poly × Nat)
+  | 0, _, k => some ([], k)
+  | rows+1, i, k =>
+    let cnt := (hs.getD (OMEGA + i) 0).toNat
+    if cnt < k ∨ cnt > OMEGA then none else
+    match decodeRow hs k (cnt - k) k zeroPoly with
+    | none => none
+    | some p =>
+      match unpackRows hs rows (i+1) cnt with
+      | none => none
+      | some (ps, k') => some (p :: ps, k')
+
 /-- hint section of `unpackSig`; `none` = return code 1. -/
 def unpackHints (hs : Bytes) : Option (List Poly) :=
-  let r := (List.range K).foldl (fun (st : Option (List Poly × Nat)) i =>
-      match st with
-      | none => none
-      | some (acc, k) =>
-        let cnt := (hs.getD (OMEGA + i) 0).toNat
-        if cnt < k ∨ cnt > OMEGA then none else
-        let row := (List.range (cnt - k)).foldl (fun (r : Option Poly) d =>
-            match r with
-            | none => none
-            | some p =>
-              let j := k + d
-              if j > k ∧ (hs.getD j 0).toNat ≤ (hs.getD (j-1) 0).toNat then none
-              else some (p.set (hs.getD j 0).toNat 1#32)) (some zeroPoly)
-        match row with
-        | none => none
-        | some p => some (acc ++ [p], cnt)) (some ([], 0))
-  match r with
+  match unpackRows hs K 0 0 with
   | none => none
-  | some (acc, k) =>
-    if (List.range (OMEGA - k)).any (fun d => hs.getD (k + d) 0 ≠ 0) then none else some acc
+  | some (rows, k) =>
+    if (List.range (OMEGA - k)).any (fun d => hs.getD (k + d) 0 != 0) then none else some rows
 
 structure SigParts where
   c : Bytes
@@ -273,6 +284,13 @@ def unpackSig (sig : Bytes) : Option SigParts :=
   | some h => some ⟨c, z, h⟩
 
 def vecChkNorm (v : List Poly) (B : Coeff) : Bool := v.any (fun p => polyChkNorm p B)
+
+/-- specification-level norm test (independent of the generated `polyChkNorm` lane): some coefficient whose centred
+representative mod q has absolute value ≥ bound. Used only to *label* what a malicious signer violated. -/
+def specNormBad (v : List Poly) (bound : Nat) : Bool :=
+  v.any fun p => p.any fun c =>
+    let r := Int.bmod c.toInt 8380417
+    decide ((bound : Int) ≤ (if r < 0 then -r else r))
 
 inductive Exit where | zNorm | w0Norm | ct0Norm | hintCount | accept
   deriving Repr, DecidableEq
@@ -306,13 +324,15 @@ def signAttempt (cfg : SignCfg) (mat : List (List Poly)) (mu rhoPrime : Bytes) (
   let h := t0.map fun p => polyReduce (invNTTToMont (polyPointwise cp p))
   let ctBad := vecChkNorm h (BitVec.ofNat 32 GAMMA2)
   if !cfg.skipCt0 && ctBad then (.ct0Norm, [], []) else
+  let w0' := w0
   let w0 := List.zipWith polyAdd w0 h
   let hint := List.zipWith polyMakeHint w0 w1
   let n := (hint.map hintWeight).foldl (· + ·) 0
   let hBad := decide (n > OMEGA)
   if !cfg.skipHint && hBad then (.hintCount, [], []) else
   (.accept, packSig ctil z hint,
-    (if zBad then ["z"] else []) ++ (if w0Bad then ["w0"] else []) ++ (if ctBad then ["ct0"] else []) ++ (if hBad then ["hint"] else []))
+    (if specNormBad z (GAMMA1 - BETA) then ["z"] else []) ++ (if specNormBad w0' (GAMMA2 - BETA) then ["w0"] else []) ++
+    (if specNormBad h (GAMMA2) then ["ct0"] else []) ++ (if hBad then ["hint"] else []))
 
 def signLoop (cfg : SignCfg) (mat : List (List Poly)) (mu rhoPrime : Bytes) (s1 s2 t0 : List Poly) :
     Nat → Nat → List Exit → Option (Bytes × List Exit × List String)
